@@ -326,14 +326,6 @@ impl Verb {
 			Self::EndOfFile
 		)
 	}
-	pub fn is_char_insert(&self) -> bool {
-		matches!(self,
-			Self::Change |
-			Self::InsertChar(_) |
-			Self::ReplaceChar(_) |
-			Self::ReplaceCharInplace(_,_)
-		)
-	}
 }
 
 /// Vim motions
